@@ -45,6 +45,10 @@ RULE = ("histories of 1-2 colliding keys with 2-6 arrivals each (plus unique fea
         "coordinates) or by the caller before create_db / update(list of Features) -, positions drawn around the genomic-bin "
         "boundaries (131072, 1048576, 8388608; one base before / on / after), constructed in another bin (100..200-like, "
         "300 Mb away, shifted by 1 / 131072, longer by 1 / 70000) or with the stored feature's coordinates and edited away; "
+        "stored lines that arrive again - verbatim (columns, keys, order, values, extras), or differing only in the order of the "
+        "attribute keys and/or of the values - in the same run, a later run or an update() of their own, 1-2 times, over plain "
+        "files (nothing else collides), ordinary histories and multi-run histories, with and without value lists that hold a "
+        "value more than once (Note=a,a; Dbxref=X1,X2,X1) on the repeated and on other lines, every strategy; "
         "one update() per quick run (thorough: every strategy) made while another sqlite3 connection holds a write "
         "transaction for 6.5-7 s (> the 5 s busy timeout) and then releases it, no key colliding; every stored feature is also read through the live "
         "handle (db[key], str(), region(completely_within=True) and all_features(limit=) at its position); non-trivial = >= 3 arrivals on one key; "
@@ -106,6 +110,16 @@ REQUIRED = ["histories", "arrivals", "stored features compared", "attribute valu
             "edited colliding newcomer moved into another genomic bin: replaced",
             "edited colliding newcomer moved into another genomic bin: unique",
             "colliding newcomer built with the stored feature's coordinates, edited away: spawned",
+            # stored lines arriving again, repeated values
+            "merge: the newcomer repeats the stored line verbatim",
+            "merge: the newcomer repeats the stored line verbatim, a value list of the line holds a repeated value",
+            "merge: the newcomer repeats the stored line up to the order of the attribute keys",
+            "merge: the newcomer repeats the stored line up to the order of the values",
+            "merge: the newcomer repeats the stored line (with extra columns)",
+            "merge: a value list of the stored feature holds a repeated value (the union has it once)",
+            "merge: a value list of the newcomer holds a repeated value (the union has it once)",
+            "merged features: value lists compared (each value once)",
+            "unmerged features whose line repeats a value: value set compared (multiplicity not judged)",
             # transient lock
             "transient lock: update() calls made while another connection held a write transaction > 5 s",
             "transient-lock cases judged"]
@@ -120,12 +134,17 @@ REQUIRED_CLASSES = (["strategy=" + s for s in M.STRATEGIES] + ["fmt=gff3", "fmt=
                     + ["input class: extra columns, strategy=" + s for s in M.STRATEGIES]
                     + ["input class: variants in different genomic bins, strategy=" + s for s in M.STRATEGIES]
                     + ["coordinates edited after construction (%s): strategy=%s" % (m, s) for m in ("transform", "objects")
-                       for s in M.STRATEGIES])
+                       for s in M.STRATEGIES]
+                    + ["input class: stored lines arrive again (verbatim / other key or value order), strategy=" + s for s in M.STRATEGIES]
+                    + ["input class: value lists holding a value more than once, strategy=" + s for s in M.STRATEGIES]
+                    + ["repeated lines: fmt=%s path=%s" % (f, p) for f in ("gff3", "gtf") for p in ("create", "create+update")])
 ASSUMPTIONS = [
     "one strategy, one force_merge_fields set and one id_spec per history (create_db and every update alike)",
     "a history in which the fresh '<key>_n' is already the key of another feature, or in which two candidates agree with "
     "the newcomer, is not judged (statement silent); the generator avoids them, the model skips and counts them",
-    "values of one attribute of one input line do not repeat; values of forced columns contain no comma",
+    "values of forced columns contain no comma; a value list of one input line may hold a value more than once (Note=a,a): "
+    "after a merge the feature has every value once ('without repeats'), whether the other feature brought the key or not; of "
+    "a feature that is one arrival (never merged) only the value SET is judged then, and its printed line is not",
     "after an abort (strategy 'error') the state of the database is not judged",
     "GTF importer: run with gene/transcript inference disabled (derived features are C03's subject); the 'Parent link' of "
     "a GTF feature is the value of its transcript key (level 1) and of its gene key (level 2, filed directly from the "
@@ -447,6 +466,12 @@ def compare(ctx, case, db, store):
             if not want:
                 ctx.mon("valueless attribute keys compared")
             have = attrs[k]
+            if not e["merged"] and len(set(want)) != len(want) and isinstance(have, list):
+                # a feature that is one arrival whose line repeats a value: how often the value is kept is not said
+                ctx.mon("unmerged features whose line repeats a value: value set compared (multiplicity not judged)")
+                have, want = sorted(set(have)), sorted(set(want))
+            if e["merged"] and len(want) >= 1:
+                ctx.mon("merged features: value lists compared (each value once)")
             if not isinstance(have, list) or sorted(have) != want:
                 what = "repeated" if isinstance(have, list) and sorted(set(have)) == want else "lost or invented"
                 report(ctx, case, "attributes", "values of %s of %r: %s" % (k, key, what), got=have, expected=want,
@@ -561,7 +586,10 @@ def live(ctx, case, db, key, e, row, stored, moved):
         bad = ("attribute keys", sorted(api), sorted(e["attrs"]))
     else:
         for k, want in e["attrs"].items():
-            if sorted(api[k]) != want:
+            got_v = sorted(api[k])
+            if not e["merged"] and len(set(want)) != len(want):
+                got_v, want = sorted(set(got_v)), sorted(set(want))
+            if got_v != want:
                 bad = ("attribute " + k, api[k], want)
     if extra != e["extra"]:
         bad = ("extra", extra, e["extra"])
@@ -570,7 +598,9 @@ def live(ctx, case, db, key, e, row, stored, moved):
                expected=bad[2], arrivals=store_log(case))
         ok = False
     # ---- printed line
-    if e["rec"] is not None:
+    if e["rec"] is not None and any(len(set(v)) != len(v) for _, v in e["rec"]["attrs"]):
+        ctx.mon("printed lines of unmerged features whose line repeats a value: not judged")
+    elif e["rec"] is not None:
         want = MD.render_line(e["rec"], point(fmt))
         ctx.mon("printed lines compared with the kept arrival's line")
         if fmt == "gtf":
@@ -793,8 +823,12 @@ def account(ctx, case, store):
         if o != "gtfkeys":
             ctx.classes["input class: " + {"flags": "valueless attribute keys", "dots": "'.' start/end",
                                            "extras": "extra columns", "farbins": "variants in different genomic bins",
-                                           "edited": "coordinates edited after construction"}[o]
+                                           "edited": "coordinates edited after construction",
+                                           "verbatim": "stored lines arrive again (verbatim / other key or value order)",
+                                           "inner": "value lists holding a value more than once"}[o]
                         + ", strategy=" + case["strategy"]] += 1
+    if case.get("repeats"):
+        ctx.classes["repeated lines: fmt=%s path=%s" % (case["fmt"], "create" if nb == 1 else "create+update")] += 1
     if "verbose" in case:
         ctx.classes["verbose=%r: strategy=%s" % (case["verbose"], case["strategy"])] += 1
     if case["kind"] == "locked":
@@ -814,7 +848,9 @@ def account(ctx, case, store):
     many = any(len(p) >= 3 for p in case.get("pattern", []))
     ctx.case((case["strategy"], case["fmt"], case["force"] if noncanonical(case) else sorted(case["force"]), nb,
               case.get("pattern"), case.get("gtfkeys"), case.get("opts"), len(runs), repr(case.get("verbose")),
-              case.get("modes"), [[bool(p) for p in bl] for bl in case.get("built") or []], case["kind"]), many or case["kind"] == "locked",
+              case.get("modes"), [[bool(p) for p in bl] for bl in case.get("built") or []], case["kind"],
+              str(case.get("repeats")), [len(b) for b in case["batches"]] if case.get("repeats") else None),
+             many or case["kind"] == "locked" or bool(case.get("repeats")),
              sample={"strategy": case["strategy"], "force": case["force"], "fmt": case["fmt"], "arrivals": store.log,
                      "verbose": case.get("verbose", "not given"),
                      "input": [text_of(b, case["fmt"]) for b in case["batches"]][:2]})
@@ -921,6 +957,15 @@ def run(ctx):
         o = draw_opts(rng, fmt)
         case = G.gen_edited(rng, fmt, strategy, force, opts=o)
         account(ctx, case, execute(ctx, case))
+    # 2h. stored lines that arrive again (verbatim, or in another key / value order), value lists that hold a value more
+    #     than once; every strategy, GFF3 and GTF, create_db and update
+    for i in range(ctx.budget(520, 11000)):
+        strategy = "merge" if i % 2 == 0 else rng.choice(M.STRATEGIES)
+        force = rng.choice(M.subsets()) if strategy == "merge" and rng.random() < 0.4 else []
+        fmt = rng.choice(["gff3", "gff3", "gtf"])
+        o = draw_opts(rng, fmt)
+        case = G.gen_verbatim(rng, fmt, strategy, force, opts=o, inner=True if i % 4 == 0 else None)
+        account(ctx, case, execute(ctx, case))
     # 2g. a transient lock held by another connection while update() inserts; nothing collides.  Quick: one case on the
     #     last shard; thorough: every strategy, one per shard
     if ctx.tier == "quick":
@@ -956,7 +1001,8 @@ MANIFEST = {
             "transform or by the caller), across genomic-bin boundaries, onto or away from the stored feature's columns; and an "
             "update() in which nothing collides runs while another connection holds a write transaction beyond the busy "
             "timeout: it must fail with sqlite3.OperationalError (a retry then gives the model's content) or store every "
-            "newcomer under its own key.",
+            "newcomer under its own key. Stored lines also arrive again verbatim or in another key / value order, with value "
+            "lists that hold a value more than once: under merge the feature must end up with every value once.",
     "note": "Trusted: gvmon/models/C05.py and the reference renderer. The relation part is reported under its own reason "
             "('relations: ...') so that it can be told apart from feature/attribute mismatches.",
 }
